@@ -1,0 +1,193 @@
+//! Verification hooks (cargo feature `verif`, off by default).
+//!
+//! Add-only: re-exports of crate-private wire types so that an external
+//! harness can name them, and a field-wise dump of a decoded message. Nothing
+//! here changes behaviour of the library.
+#![allow(missing_docs)]
+
+use std::{format, string::String, vec::Vec};
+
+use crate::{
+    datastructures::{
+        common::{PortIdentity, TimeInterval, WireTimestamp},
+        messages::{Header, Message, MessageBody},
+        WireFormatError,
+    },
+    time::{Duration, Time},
+};
+
+/// `From<Duration> for TimeInterval`, as the `I48F16` bit pattern
+pub fn duration_to_time_interval_bits(d: Duration) -> i64 {
+    TimeInterval::from(d).0.to_bits()
+}
+
+/// `From<TimeInterval> for Duration`, from the `I48F16` bit pattern
+pub fn time_interval_bits_to_duration(bits: i64) -> Duration {
+    Duration::from(TimeInterval(fixed::types::I48F16::from_bits(bits)))
+}
+
+/// `From<Time> for WireTimestamp`
+pub fn time_to_wire(t: Time) -> (u64, u32) {
+    let w = WireTimestamp::from(t);
+    (w.seconds, w.nanos)
+}
+
+/// `From<WireTimestamp> for Time`
+pub fn wire_to_time(seconds: u64, nanos: u32) -> Time {
+    Time::from(WireTimestamp { seconds, nanos })
+}
+
+/// `Time::subnano()`, as the `I48F16` bit pattern
+pub fn time_subnano_bits(t: Time) -> i64 {
+    t.subnano().0.to_bits()
+}
+
+/// `TimeInterval + TimeInterval` on the underlying `I48F16` (as in `Message::delay_resp`)
+pub fn time_interval_add_bits(a: i64, b: i64) -> i64 {
+    (fixed::types::I48F16::from_bits(a) + fixed::types::I48F16::from_bits(b)).to_bits()
+}
+
+fn hex(bytes: &[u8]) -> String {
+    let mut s = String::new();
+    for b in bytes {
+        s.push_str(&format!("{:02x}", b));
+    }
+    if s.is_empty() {
+        s.push('-');
+    }
+    s
+}
+
+fn pid(p: &PortIdentity) -> String {
+    format!("{}:{}", hex(&p.clock_identity.0), p.port_number)
+}
+
+fn ts(t: &WireTimestamp) -> String {
+    format!("{}.{}", t.seconds, t.nanos)
+}
+
+fn header(h: &Header, out: &mut Vec<String>) {
+    out.push(format!("sdo={}", u16::from(h.sdo_id)));
+    // PtpVersion has private fields; recover them through its Debug output
+    out.push(format!("ver={}", format!("{:?}", h.version).replace(' ', "")));
+    out.push(format!("dom={}", h.domain_number));
+    out.push(format!(
+        "flags={}{}{}{}{}{}{}{}{}{}{}{}",
+        h.alternate_master_flag as u8,
+        h.two_step_flag as u8,
+        h.unicast_flag as u8,
+        h.ptp_profile_specific_1 as u8,
+        h.ptp_profile_specific_2 as u8,
+        h.leap61 as u8,
+        h.leap59 as u8,
+        h.current_utc_offset_valid as u8,
+        h.ptp_timescale as u8,
+        h.time_tracable as u8,
+        h.frequency_tracable as u8,
+        h.synchronization_uncertain as u8,
+    ));
+    out.push(format!("corr={}", h.correction_field.0.to_bits()));
+    out.push(format!("src={}", pid(&h.source_port_identity)));
+    out.push(format!("seq={}", h.sequence_id));
+    out.push(format!("logint={}", h.log_message_interval));
+}
+
+/// Error class of `Message::deserialize` as a stable string
+fn err_name(e: &WireFormatError) -> &'static str {
+    match e {
+        WireFormatError::EnumConversionError => "enum",
+        WireFormatError::BufferTooShort => "short",
+        WireFormatError::CapacityError => "capacity",
+        WireFormatError::Invalid => "invalid",
+    }
+}
+
+/// `Message::deserialize` followed by a field-wise dump
+pub fn decode_dump(buffer: &[u8]) -> Result<String, &'static str> {
+    match Message::deserialize(buffer) {
+        Ok(m) => Ok(dump_message(&m)),
+        Err(e) => Err(err_name(&e)),
+    }
+}
+
+/// `Message::deserialize` followed by `Message::serialize` into a zeroed
+/// buffer of `cap` octets; returns the written prefix and `wire_size()`
+pub fn decode_reencode(buffer: &[u8], cap: usize) -> Result<(Vec<u8>, usize), &'static str> {
+    match Message::deserialize(buffer) {
+        Ok(m) => {
+            let mut out = std::vec![0u8; cap];
+            let ws = m.wire_size();
+            match m.serialize(&mut out) {
+                Ok(n) => {
+                    out.truncate(n);
+                    Ok((out, ws))
+                }
+                Err(e) => Err(err_name(&e)),
+            }
+        }
+        Err(e) => Err(err_name(&e)),
+    }
+}
+
+fn dump_message(m: &Message<'_>) -> String {
+    let mut out = Vec::new();
+    header(&m.header, &mut out);
+    match &m.body {
+        MessageBody::Sync(b) => out.push(format!("sync origin={}", ts(&b.origin_timestamp))),
+        MessageBody::DelayReq(b) => {
+            out.push(format!("delayreq origin={}", ts(&b.origin_timestamp)))
+        }
+        MessageBody::PDelayReq(b) => {
+            let d = format!("{:?}", b);
+            // origin_timestamp is pub(super); recover through Debug
+            out.push(format!("pdelayreq {}", d.replace(' ', "")))
+        }
+        MessageBody::PDelayResp(b) => out.push(format!(
+            "pdelayresp rx={} req={}",
+            ts(&b.request_receive_timestamp),
+            pid(&b.requesting_port_identity)
+        )),
+        MessageBody::FollowUp(b) => {
+            out.push(format!("followup origin={}", ts(&b.precise_origin_timestamp)))
+        }
+        MessageBody::DelayResp(b) => out.push(format!(
+            "delayresp rx={} req={}",
+            ts(&b.receive_timestamp),
+            pid(&b.requesting_port_identity)
+        )),
+        MessageBody::PDelayRespFollowUp(b) => out.push(format!(
+            "pdelayrespfu origin={} req={}",
+            ts(&b.response_origin_timestamp),
+            pid(&b.requesting_port_identity)
+        )),
+        MessageBody::Announce(b) => out.push(format!(
+            "announce origin={} utc={} p1={} class={} acc={} var={} p2={} gm={} steps={} src={}",
+            ts(&b.origin_timestamp),
+            b.current_utc_offset,
+            b.grandmaster_priority_1,
+            b.grandmaster_clock_quality.clock_class,
+            b.grandmaster_clock_quality.clock_accuracy.to_primitive(),
+            b.grandmaster_clock_quality.offset_scaled_log_variance,
+            b.grandmaster_priority_2,
+            hex(&b.grandmaster_identity.0),
+            b.steps_removed,
+            b.time_source.to_primitive(),
+        )),
+        MessageBody::Signaling(b) => {
+            out.push(format!("signaling {}", format!("{:?}", b).replace(' ', "")))
+        }
+        MessageBody::Management(b) => {
+            out.push(format!("management {}", format!("{:?}", b).replace(' ', "")))
+        }
+    }
+    let mut tlvs = String::new();
+    for tlv in m.suffix.tlv() {
+        tlvs.push_str(&format!(
+            "[{}:{}]",
+            tlv.tlv_type.to_primitive(),
+            hex(tlv.value.as_ref())
+        ));
+    }
+    out.push(format!("tlvs={}", if tlvs.is_empty() { "-".into() } else { tlvs }));
+    out.join(" ")
+}
